@@ -65,7 +65,7 @@ CLAIMED.update({
             "Assumed: single receiver of the sub-stream channel; the parts of a placeholder body contain no braces or bars (hypothesis of the separator clause of initPortsFromCmdPattern); capture-group axiom re.join.group for the join pattern literal; audit Upstream entries of the members: C10.",
             "3/C18"),
     "C10": ("Proof that writeAuditLogs builds one record per task (id, process name, command, parameters, tags, timing), links every input's own record (looked up by path, sub-stream members included) under the input's path as Upstream, attaches that one record to every output IP and writes it next to every non-streaming output; sortedness/merging helpers of the audit tree.",
-            "Assumed: inputs of one task are distinct IP objects (inputsDistinct); the sidecar JSON on disk is what the in-memory record marshals to (encoding/json, C11); reading an upstream record back from its sidecar returns the record that was written (loadedAudit abstraction). Merging of upstream tags into the task's tags is not under proof (invariants too heavy for the solvers).",
+            "Assumed: inputs of one task are distinct IP objects (inputsDistinct); the sidecar JSON on disk is what the in-memory record marshals to (encoding/json, C11); reading an upstream record back from its sidecar returns the record that was written (loadedAudit abstraction). Upstream tags: decided per call (every input's tag map is offered to the task's one record; AddTags returns only if each offered tag is then present and was compatible); that the record finally holds every non-empty upstream tag is a paper argument over the two loops (the inductive invariant could not be discharged).",
             "3/C10"),
     "C11": ("Proof of the per-function facts that make provenance survive a restart: an IP for an existing file loads its record from exactly the side-car path (<path>.audit.json) that WriteAuditLogToFile writes the IP's record to; a cached record is never reloaded; UnmarshalAuditInfoJSONFile reads the named file, decodes the bytes read into the record it returns, and treats an unreadable or undecodable file as fatal (only an absent file yields an empty record); writeAuditLogs links every input's own (loaded) record under the input's path; and a structural check that every field of AuditInfo, recursively, survives encoding/json (exported, no '-' tag, no interface/func/chan, no colliding names).",
             "Assumed: encoding/json round-trips a value of a type that passes the structural check (Unmarshal(Marshal(x)) == x; the library is not verified); the file system keeps the side-car files between runs; the modifies clause of UnmarshalAuditInfoJSONFile (it fills only the record it allocates) is assumed because json.Unmarshal works by reflection. The comparison of whole lineages across different run histories is a paper argument from these facts (induction over the DAG), not an obligation.",
